@@ -38,7 +38,9 @@ func init() {
 		// run the three variants for this one history and compare
 		var ds []string
 		for v := 0; v < 3; v++ {
-			out, err := exec.Command(vmcPath(), "worker", "c14", strconv.Itoa(v), c.Epoch, c.Tier, "-", c.Scenario, joinU16(c.Indices)).Output()
+			cmd := exec.Command(vmcPath(), "worker", "c14", strconv.Itoa(v), c.Epoch, c.Tier, "-", c.Scenario, joinU16(c.Indices))
+			cmd.Env = append(os.Environ(), "TZ="+c14Zones[v%len(c14Zones)])
+			out, err := cmd.Output()
 			if err != nil {
 				return "worker failed: " + err.Error()
 			}
@@ -50,6 +52,10 @@ func init() {
 		return fmt.Sprintf("volume digests differ between executions: %v", ds)
 	}
 }
+
+// the local time zone is part of the process environment: each of the three executions runs in another zone
+// (UTC, +09:00, and -03:30 with daylight saving)
+var c14Zones = []string{"UTC", "Asia/Tokyo", "America/St_Johns"}
 
 func vmcPath() string {
 	if p := os.Getenv("VERIF_VMC"); p != "" {
@@ -196,7 +202,7 @@ func C14(r *ev.Run) {
 			sem <- struct{}{}
 			defer func() { <-sem }()
 			cmd := exec.Command(vmcPath(), "worker", "c14", strconv.Itoa(j.variant), j.epoch, r.Tier, j.file)
-			cmd.Env = append(os.Environ(), "GOMAXPROCS=4")
+			cmd.Env = append(os.Environ(), "GOMAXPROCS=4", "TZ="+c14Zones[j.variant%len(c14Zones)])
 			if out, err := cmd.CombinedOutput(); err != nil {
 				j.err = fmt.Errorf("%v: %s", err, firstWords(string(out)))
 			}
